@@ -53,6 +53,22 @@ pub fn layouts() -> Vec<Layout> {
             files: { let mut f = common.clone(); f.extend(vec![("src/gen/g.txt", "generated"), ("src/gen/h.bin", "generated-binary")]); f },
             writes: vec!["out/o.txt"],
         },
+        // the consumer's own resource and an inherited one name the same path with different extension filters
+        Layout {
+            name: "inherited-output-same-path-other-filter",
+            projects: vec![("", None, "p:\n  build: ':'\n  output: [{paths: [src], extensions: [csv]}]\nt:\n  build: ':'\n  input: [{paths: [src], extensions: [txt]}, p.output]\n  output: [{paths: [out/o.txt]}]\n")],
+            target: "t",
+            files: common.clone(),
+            writes: vec!["out/o.txt"],
+        },
+        // a producer output that is a symlink to a regular file kept elsewhere
+        Layout {
+            name: "inherited-output-symlinked-file",
+            projects: vec![("", None, "p:\n  build: ':'\n  output: [{paths: [pout]}]\nt:\n  build: ':'\n  input: [{paths: [src/a.txt]}, p.output]\n  output: [{paths: [out/o.txt]}]\n")],
+            target: "t",
+            files: { let mut f = common.clone(); f.extend(vec![("pout/x.o", "obj-x"), ("vault/real.txt", "behind-the-link"), ("vault/other.txt", "another-variant")]); f },
+            writes: vec!["out/o.txt"],
+        },
         // a symlink to a regular file inside a declared directory: the content behind it is part of the resource
         Layout {
             name: "symlinked-input",
@@ -184,6 +200,8 @@ pub enum Op {
     DeleteRecord,
     TruncateRecord,
     SwapContents(&'static str, &'static str),
+    /// a symlink is re-pointed (atomically: new link renamed over the old one)
+    Repoint(&'static str, &'static str),
 }
 
 pub fn ops_for(l: &Layout) -> Vec<Op> {
@@ -219,6 +237,9 @@ pub fn ops_for(l: &Layout) -> Vec<Op> {
     }
     if has("vault/real.txt") {
         v.extend(vec![RewriteSameLength("vault/real.txt"), RewriteOlderMtime("vault/real.txt"), TouchSameContent("vault/real.txt")]);
+    }
+    if l.name == "inherited-output-symlinked-file" {
+        v.extend(vec![Repoint("pout/current.o", "../vault/other.txt"), Repoint("pout/current.o", "../vault/real.txt"), RewriteSameLength("vault/other.txt")]);
     }
     if has("big.bin") {
         v.extend(vec![ChangeByteAt("big.bin", 5), ChangeByteAt("big.bin", 1500), ChangeByteAt("big.bin", 9000), ChangeByteAt("big.bin", 23999), TouchSameContent("big.bin"), Append("big.bin")]);
@@ -390,6 +411,19 @@ pub fn apply_op(root: &Path, op: &Op, rec: &Path) -> bool {
                 _ => false,
             }
         }
+        Repoint(link, to) => {
+            let p = root.join(link);
+            match std::fs::read_link(&p) {
+                Ok(cur) if cur != Path::new(to) => {
+                    let tmp = root.join(format!("{}.new", link));
+                    let _ = std::fs::remove_file(&tmp);
+                    std::os::unix::fs::symlink(to, &tmp).unwrap();
+                    std::fs::rename(&tmp, &p).unwrap();
+                    true
+                }
+                _ => false,
+            }
+        }
         DeleteRecord => {
             if rec.is_file() {
                 std::fs::remove_file(rec).unwrap();
@@ -420,11 +454,17 @@ pub struct Scene {
     pub executions: u32,
     /// reference record: snapshot taken at the last completed execution
     pub record: Option<Snap>,
+    /// the reference's own idea of the effective input (hand-written per layout where inputs are inherited;
+    /// otherwise, and after a re-declaration, the resolved one)
+    pub ref_input: Option<(FileSpec, CmdSpec)>,
 }
 
 pub fn materialise(l: &Layout, root: &Path) -> Scene {
     for (f, c) in &l.files {
         write_clocked(&root.join(f), c.as_bytes());
+    }
+    if l.name == "inherited-output-symlinked-file" {
+        std::os::unix::fs::symlink("../vault/real.txt", root.join("pout/current.o")).unwrap();
     }
     if l.name == "symlinked-input" {
         std::os::unix::fs::symlink("../vault/real.txt", root.join("src/link.txt")).unwrap();
@@ -435,7 +475,8 @@ pub fn materialise(l: &Layout, root: &Path) -> Scene {
     write_projects(l, root, None);
     let (meta, input, output) = resolve_scene(l, root);
     let rec = record_path(root, l, &meta);
-    Scene { root: root.to_path_buf(), meta, input, output, rec, executions: 0, record: None }
+    let ref_input = std::fs::canonicalize(root).ok().and_then(|r| expected_inputs(l.name, &r));
+    Scene { root: root.to_path_buf(), meta, input, output, rec, executions: 0, record: None, ref_input }
 }
 
 /// one operation of a history on a scene (a re-declaration re-resolves the target's resources, as a new invocation does)
@@ -449,6 +490,7 @@ pub fn apply_op_scene(sc: &mut Scene, l: &Layout, o: &Op) -> bool {
         sc.meta = meta;
         sc.input = input;
         sc.output = output;
+        sc.ref_input = None;
         return !same;
     }
     let root = sc.root.clone();
@@ -505,12 +547,10 @@ pub struct Snap {
     pub output_cmds: BTreeMap<(PathBuf, String), String>,
 }
 
-fn snap_files(res: &Resources) -> BTreeMap<PathBuf, (i64, Vec<u8>)> {
+fn snap_files(files: &FileSpec) -> BTreeMap<PathBuf, (i64, Vec<u8>)> {
     let mut out = BTreeMap::new();
-    for fr in &res.files {
-        let decl: Vec<PathBuf> = fr.paths.iter().map(|p| PathBuf::from(p.as_os_str().to_os_string())).collect();
-        let exts: Option<Vec<String>> = fr.extensions.as_ref().map(|s| s.iter().cloned().collect());
-        let (must, _dc) = ref_list(&decl, &norm_exts(&exts));
+    for (decl, exts) in files {
+        let (must, _dc) = ref_list(decl, &norm_exts(exts));
         for f in must {
             if let (Some(m), Ok(c)) = (get_mtime(&f), std::fs::read(&f)) {
                 out.insert(f, (m, c));
@@ -520,25 +560,36 @@ fn snap_files(res: &Resources) -> BTreeMap<PathBuf, (i64, Vec<u8>)> {
     out
 }
 
-fn snap_cmds(res: &Resources) -> Option<BTreeMap<(PathBuf, String), String>> {
+fn snap_cmds(cmds: &CmdSpec) -> Option<BTreeMap<(PathBuf, String), String>> {
     let mut out = BTreeMap::new();
-    for c in &res.cmds {
-        let dir = PathBuf::from(c.dir.as_os_str().to_os_string());
-        let o = std::process::Command::new("/bin/sh").arg("-ce").arg(&c.cmd).current_dir(&dir).stderr(std::process::Stdio::null()).output().ok()?;
+    for (cmd, dir) in cmds {
+        let o = std::process::Command::new("/bin/sh").arg("-ce").arg(cmd).current_dir(dir).stderr(std::process::Stdio::null()).output().ok()?;
         if !o.status.success() {
             return None;
         }
-        out.insert((dir, c.cmd.clone()), String::from_utf8_lossy(&o.stdout).to_string());
+        out.insert((dir.clone(), cmd.clone()), String::from_utf8_lossy(&o.stdout).to_string());
     }
     Some(out)
 }
 
 /// None when the state cannot be computed (a command resource fails): nothing is stored then
 pub fn take_snap(input: &Resources, output: &Resources) -> Option<Snap> {
-    if input.is_empty() {
+    take_snap_spec(&spec_of(input), input.is_empty(), output)
+}
+
+pub fn take_snap_spec(input: &(FileSpec, CmdSpec), no_input: bool, output: &Resources) -> Option<Snap> {
+    if no_input {
         return None; // targets without input keep no record
     }
-    Some(Snap { input_files: snap_files(input), output_files: snap_files(output), input_cmds: snap_cmds(input)?, output_cmds: snap_cmds(output)? })
+    let out = spec_of(output);
+    Some(Snap { input_files: snap_files(&input.0), output_files: snap_files(&out.0), input_cmds: snap_cmds(&input.1)?, output_cmds: snap_cmds(&out.1)? })
+}
+
+fn scene_snap(sc: &Scene) -> Option<Snap> {
+    match &sc.ref_input {
+        Some(spec) => take_snap_spec(spec, spec.0.is_empty() && spec.1.is_empty(), &sc.output),
+        None => take_snap(&sc.input, &sc.output),
+    }
 }
 
 fn files_same(a: &BTreeMap<PathBuf, (i64, Vec<u8>)>, b: &BTreeMap<PathBuf, (i64, Vec<u8>)>) -> bool {
@@ -602,7 +653,7 @@ pub fn invoke(sc: &mut Scene, l: &Layout) -> Result<Decision, String> {
         }
         Ok(IncrementalRunResult::Completed) => {
             sc.executions += 1;
-            sc.record = take_snap(&sc.input, &sc.output);
+            sc.record = scene_snap(sc);
             Ok(Decision::Executed)
         }
         Ok(IncrementalRunResult::Cancelled) => Err("runner reported Cancelled".into()),
@@ -682,7 +733,7 @@ pub fn run_histories_part(l: &Layout, ops: &[Op], len1: usize, len2: usize, orac
             let mut bad: Option<(String, String)> = None;
             let mut step = |sc: &mut Scene, what: &str, log: &mut Vec<String>, out: &mut HistOut, bad: &mut Option<(String, String)>| {
                 let before_record = sc.record.clone();
-                let now = take_snap(&sc.input, &sc.output);
+                let now = scene_snap(sc);
                 let allowed = skip_allowed(&before_record, &now);
                 let same = untouched(&before_record, &now);
                 let d = invoke(sc, l);
@@ -850,6 +901,31 @@ pub fn check_c13_behaviour(rep: &mut Report) {
     merge(rep, outs);
 }
 
+pub type FileSpec = Vec<(Vec<PathBuf>, Option<Vec<String>>)>;
+pub type CmdSpec = Vec<(String, PathBuf)>;
+
+/// the effective input of the target under test, written out by hand from the layout's project files (`r` is the
+/// canonical scratch root): the reference of the behavioural oracles does not go through zinoma's resolver
+pub fn expected_inputs(layout: &str, r: &Path) -> Option<(FileSpec, CmdSpec)> {
+    Some(match layout {
+        "inherited-output-same-project" => (vec![(vec![r.join("src/a.txt")], None), (vec![r.join("pout")], Some(vec![".o".into()]))], vec![("cat pv.txt".into(), r.to_path_buf())]),
+        "inherited-output-imported-project" => (vec![(vec![r.join("src/a.txt")], None), (vec![r.join("libdir/src")], Some(vec![".txt".into()]))], vec![("cat v.txt".into(), r.join("libdir"))]),
+        "inherited-output-inside-own-directory" => (vec![(vec![r.join("src")], None), (vec![r.join("src/gen")], Some(vec![".txt".into()]))], vec![]),
+        "two-producers-same-command-text" | "same-command-text-same-output" => (vec![], vec![("cat v.txt".into(), r.join("pa")), ("cat v.txt".into(), r.join("pb"))]),
+        "inherited-output-same-path-other-filter" => (vec![(vec![r.join("src")], Some(vec![".txt".into()])), (vec![r.join("src")], Some(vec![".csv".into()]))], vec![]),
+        "inherited-output-symlinked-file" => (vec![(vec![r.join("src/a.txt")], None), (vec![r.join("pout")], None)], vec![]),
+        "two-producers-absolute-command-text" => (vec![], vec![("/bin/cat v.txt".into(), r.join("pa")), ("/bin/cat v.txt".into(), r.join("pb"))]),
+        _ => return None,
+    })
+}
+
+fn spec_of(res: &Resources) -> (FileSpec, CmdSpec) {
+    (
+        res.files.iter().map(|f| (f.paths.iter().map(|p| PathBuf::from(p.as_os_str().to_os_string())).collect(), f.extensions.as_ref().map(|e| e.iter().cloned().collect()))).collect(),
+        res.cmds.iter().map(|c| (c.cmd.clone(), PathBuf::from(c.dir.as_os_str().to_os_string()))).collect(),
+    )
+}
+
 /// C13: resolution through real files (canonical directories) + behaviour
 pub fn check_c13(rep: &mut Report) {
     crate::seq_resolve::c13_resolution(rep);
@@ -863,14 +939,7 @@ pub fn check_c13(rep: &mut Report) {
         let r = canon(&r);
         let files: Vec<(Vec<PathBuf>, Option<Vec<String>>)> = sc.input.files.iter().map(|f| (f.paths.iter().map(|p| PathBuf::from(p.as_os_str().to_os_string())).collect(), f.extensions.as_ref().map(|e| e.iter().cloned().collect()))).collect();
         let cmds: Vec<(String, PathBuf)> = sc.input.cmds.iter().map(|c| (c.cmd.clone(), PathBuf::from(c.dir.as_os_str().to_os_string()))).collect();
-        let (want_files, want_cmds): (Vec<(Vec<PathBuf>, Option<Vec<String>>)>, Vec<(String, PathBuf)>) = match l.name {
-            "inherited-output-same-project" => (vec![(vec![r.join("src/a.txt")], None), (vec![r.join("pout")], Some(vec![".o".into()]))], vec![("cat pv.txt".into(), r.clone())]),
-            "inherited-output-imported-project" => (vec![(vec![r.join("src/a.txt")], None), (vec![r.join("libdir/src")], Some(vec![".txt".into()]))], vec![("cat v.txt".into(), r.join("libdir"))]),
-            "inherited-output-inside-own-directory" => (vec![(vec![r.join("src")], None), (vec![r.join("src/gen")], Some(vec![".txt".into()]))], vec![]),
-            "two-producers-same-command-text" => (vec![], vec![("cat v.txt".into(), r.join("pa")), ("cat v.txt".into(), r.join("pb"))]),
-            "two-producers-absolute-command-text" => (vec![], vec![("/bin/cat v.txt".into(), r.join("pa")), ("/bin/cat v.txt".into(), r.join("pb"))]),
-            other => panic!("MACHINERY: no expectation written for layout {}", other),
-        };
+        let (want_files, want_cmds) = expected_inputs(l.name, &r).unwrap_or_else(|| panic!("MACHINERY: no expectation written for layout {}", l.name));
         rep.add_u64("transitions", 1);
         if files != want_files || cmds != want_cmds {
             rep.violation(format!("inherited-input-differs-on-disk [layout={}]", l.name), format!("layout {}: effective input files {:?} cmds {:?}\nexpected files {:?} cmds {:?}", l.name, files, cmds, want_files, want_cmds), json!({"engine": "seqcheck", "check": "C13", "layout": l.name}));
@@ -879,8 +948,9 @@ pub fn check_c13(rep: &mut Report) {
         let want_deps: Vec<&str> = match l.name {
             "inherited-output-same-project" => vec!["p"],
             "inherited-output-imported-project" => vec!["lib::p"],
-            "inherited-output-inside-own-directory" => vec!["p"],
-            _ => vec!["pa::p", "pb::p"],
+            "inherited-output-inside-own-directory" | "inherited-output-same-path-other-filter" | "inherited-output-symlinked-file" => vec!["p"],
+            n if n.starts_with("two-producers") => vec!["pa::p", "pb::p"],
+            other => panic!("MACHINERY: no dependency expectation written for layout {}", other),
         };
         if deps != want_deps {
             rep.violation(format!("producer-not-a-dependency [layout={}]", l.name), format!("layout {}: dependencies {:?}, expected {:?}", l.name, deps, want_deps), json!({"engine": "seqcheck", "check": "C13", "layout": l.name}));
